@@ -104,6 +104,29 @@ def generate(seed, tier="quick"):
         op.update(p)
         ops.append(op)
         oid += 1
+    # clause (b) over HISTORIES: several file-path samplers with equal seeds make the same sequence of calls but
+    # with different batching / pool / cache-vs-file; the accepted set must agree at every step (in-memory is left
+    # out: it consumes the parent stream for the linear draws, so later calls legitimately differ from the file path)
+    if rnd.random() < 0.6:
+        rs2 = rnd.getrandbits(32)
+        n_steps = rnd.randint(2, 3)
+        steps = []
+        for _s in range(n_steps):
+            k3 = {"n_linear_samples": rnd.choice([1, 2])}
+            if rnd.random() < 0.4:
+                k3["randomize_prior_order"] = True
+            if rnd.random() < 0.3:
+                k3["n_prior_samples"] = rnd.randint(1, max(1, N))
+            steps.append(k3)
+        for c in range(rnd.randint(2, 3)):
+            src = rnd.choice(["object", "file"])
+            pool = rnd.choice([{"kind": "serial"}, {"kind": "sim", "size": rnd.randint(1, 6)}])
+            for si, k3 in enumerate(steps):
+                k4 = dict(k3)
+                k4["n_batches"] = common.gen_n_batches(rnd, k4.get("n_prior_samples") or N)
+                ops.append({"id": oid, "op": "rejection", "data": 0, "lib": 0, "role": "chain", "chain": c, "step": si, "joker": "chain:%d" % c, "pool": pool, "rng_seed": rs2,
+                            "source": src, "in_memory": False, "kw": k4})
+                oid += 1
     # helper-level workload: one long-lived CJokerHelper
     ops.append({"id": oid, "op": "helper_new", "h": "h0", "data": 0, "role": "helper"})
     oid += 1
@@ -241,6 +264,25 @@ def evaluate(dep, program):
                     "rows %s (op %s) vs %s (op %s)" % (rows[:20], op, acc_ref[0][:20], acc_ref[1]),
                 )
             )
+    # clause (b) over histories
+    step_ref = {}
+    for rec in dep.history:
+        op = rec["op"]
+        if op.get("role") != "chain":
+            continue
+        if rec["raised"] is not None:
+            v.append(Violation(PROPERTY, "C05.path-raises", "C05:rejection:%s:raises:%s" % (_pname(op), rec["raised"][-1][0]), "op %s raised %s" % (op, rec["raised"])))
+            continue
+        out = rec["out"]
+        nl = op["kw"].get("n_linear_samples", 1)
+        rows = map_rows(packed, {k: out["cols"][k]["v"] for k in ["P", "e", "omega", "M0", "s"]})[::nl]
+        probe("chain_steps_compared")
+        if op["step"] >= 1:
+            probe("chain_later_call_compared")
+        ref = step_ref.setdefault(op["step"], (rows, op))
+        if rows != ref[0]:
+            v.append(Violation(PROPERTY, "C05.accepted-set", "C05:rejection:accepted-set-of-a-later-call-depends-on-how-earlier-calls-were-batched",
+                               "call #%d of the sequence: rows %s (%s) vs %s (%s)" % (op["step"], rows[:15], {k: op[k] for k in ("source", "pool", "kw")}, ref[0][:15], {k: ref[1][k] for k in ("source", "pool", "kw")})))
     # helper-level
     for rec in dep.history:
         op = rec["op"]
